@@ -806,6 +806,11 @@ class VM:
             pick = [o for o in owners if o == dh] or owners
             return Adt(pick[0], enums[pick[0]].index(segs[0]), [])
         if len(segs) == 1 and segs[0] in self.mir.src.structs: return Adt(segs[0], 0, [])
+        # const item with a body in the dump (`const NAME: T = { .. }`): evaluated by running it
+        cs = self.mir.consts.get(segs[-1]) if segs and re.fullmatch(r'[A-Z][A-Z0-9_]*', segs[-1]) else None
+        if cs:
+            if len(cs) > 1: raise Unmodelled(f'const item {segs[-1]} is defined {len(cs)} times (ambiguous by last segment)')
+            return self.run_fn(cs[0], [], {})
         # function item as constant
         if re.match(r'[\w<{]', cc): return FnItem(self.subst_text(cc, fr), fr.subst)
         raise Unmodelled('const? ' + c)
